@@ -1733,9 +1733,19 @@ def _d5(ctx):
     _nv_serialiser(ctx)
 
 
+def _is_logging_stmt(s):
+    """A statement that only logs: `_logger.<level>(...)` / `logging.<level>(...)`."""
+    if isinstance(s, ast.Expr) and isinstance(s.value, ast.Call):
+        d = dotted(s.value.func) or ''
+        return d.startswith(('_logger.', 'logger.', 'logging.', 'self._logger.')) and d.split('.')[-1] in (
+            'debug', 'info', 'warning', 'error', 'exception', 'critical', 'log')
+    return False
+
+
 def _single_return(fi):
     rets = [n for n in walk_no_nested(fi.node) if isinstance(n, ast.Return)]
-    body = [s for s in fi.node.body if not (isinstance(s, ast.Expr) and isinstance(s.value, ast.Constant))]
+    body = [s for s in fi.node.body if not (isinstance(s, ast.Expr) and isinstance(s.value, ast.Constant))
+            and not _is_logging_stmt(s)]
     if len(rets) == 1 and len(body) == 1 and body[0] is rets[0]:
         return rets[0].value
     return None
